@@ -319,7 +319,7 @@ def levels(tier: str) -> list[dict]:
     L.append(dict(label='orders/generated-reflexivity-theories/claims=4/pool=7', module=M, fn='h_order_refl', kwargs=dict(nterms=4, small=True), budget_s=bud, required=True, twin=False))
     for nt in (() if q else (3, 4, 5)):
         L.append(dict(label=f'orders/generated-reflexivity-theories/claims={nt}/pool=9', module=M, fn='h_order_refl', kwargs=dict(nterms=nt), budget_s=bud, required=True, twin=False))
-    for bench in ('impreflex-compressed-goal', 'two-variables') + (() if q else ('transfer-simple-compressed-goal',)):
+    for bench in ('impreflex-compressed-goal', 'two-variables', 'ambiguous-vars') + (() if q else ('transfer-simple-compressed-goal',)):
         L.append(dict(label=f'orders/metamath:{bench}/optimize=True', module=M, fn='h_order', kwargs=dict(module=f'mm:{bench}', optimize=True), budget_s=bud, required=False, twin=False))
     return L
 
